@@ -36,7 +36,7 @@ def grammar():
     return args
 
 
-ENTRY = ["count", "matmul_h", "matmul_p", "matmul_r", "index_h", "index_rwc", "index_sel", "limit", "parity"]
+ENTRY = ["count", "count_repeated", "matmul_h", "matmul_p", "matmul_r", "index_h", "index_rwc", "index_sel", "limit", "parity"]
 
 
 def gen_cases(rng, tier):
@@ -54,7 +54,8 @@ def gen_cases(rng, tier):
                           "hi": [Fraction(hi).numerator, Fraction(hi).denominator], "bt": bt})
         for md, pl in [(True, True), (True, False), (False, True), (False, False)]:
             for via in ("explode", "substitute"):
-                cases.append({"kind": "both", "md": md, "pl": pl, "via": via, "bt": bt})
+                for mdv in ([0, 1, 2, False] if md else [None]):
+                    cases.append({"kind": "both", "md": md, "pl": pl, "via": via, "bt": bt, "mdv": mdv})
         for none, ns in [(True, 0), (True, 1), (False, 0)]:
             cases.append({"kind": "rollnone", "none": none, "ns": ns, "bt": bt})
     if tier == "quick":
@@ -96,6 +97,10 @@ def impl_run(case):
         if k == "count":
             res = H({7: py_arg(case["arg"])})
             out = {"ok": res[7]}
+        elif k == "count_repeated":
+            # the same outcome listed several times: every listed count must be valid on its own
+            res = H([(7, 3), (7, py_arg(case["arg"])), (8, 1)])
+            out = {"ok": res[7] - 3}
         elif k == "matmul_h":
             res = py_arg(case["arg"]) @ h
             out = {"ok": int(round(0 if res.total == 0 else __import__("math").log(res.total, 4))) if res.total else 0, "total": res.total}
@@ -135,7 +140,7 @@ def impl_run(case):
         elif k == "both":
             kw = {}
             if case["md"]:
-                kw["max_depth"] = 1
+                kw["max_depth"] = case.get("mdv", 1)
             if case["pl"]:
                 kw["precision_limit"] = Fraction(1, 2)
             if case["via"] == "explode":
@@ -192,8 +197,8 @@ def coq_check(case, r):
     bt = "true" if case["bt"] else "false"
     if "exc" in r and _cexc(r) is None:
         return "MISMATCH"
-    if k in ("count", "matmul_h", "matmul_p", "matmul_r"):
-        g = "count_guard" if k == "count" else "matmul_guard"
+    if k in ("count", "count_repeated", "matmul_h", "matmul_p", "matmul_r"):
+        g = "count_guard" if k.startswith("count") else "matmul_guard"
         exp = f"(Err {_cexc(r)})" if "exc" in r else f"(Ok {cz(r['ok'])})"
         return f"chk_guard_z ({g} {bt} {carg(case['arg'])}) {exp}"
     if k.startswith("index"):
@@ -234,7 +239,7 @@ def oracle(case):
     """the documented behaviour, written independently of the model"""
     k = case["kind"]
     bt = case["bt"]
-    if k in ("count", "matmul_h", "matmul_p", "matmul_r"):
+    if k in ("count", "count_repeated", "matmul_h", "matmul_p", "matmul_r"):
         a = case["arg"]
         v = _ival(a)
         if v is None:
